@@ -20,7 +20,10 @@ PROP = dict(
          "key in exactly a non-empty subset of its last 1..7 bits (also for the byte-multiple widths); dictionaries "
          "whose leaves reference library cells (exotic cells on the kept part of the proof); TWO proofs from ONE "
          "prover (mk.prove2/go.prove2: present-present incl. first/last key, absent-then-present; mk.prune2/go.prune2: "
-         "two cursors with independent path sets, second proof compared with a fresh prover's). "
+         "two cursors with independent path sets, second proof compared with a fresh prover's; mk.prune.il/go.prune.il: "
+         "two LIVE cursors of one prover with interleaved Prune calls, CreateProof in both orders, each proof compared "
+         "with a fresh prover's). Every generated proof is also read through the library's own accessors: "
+         "Cell.GetMerkleRoot and the tlb.MerkleProof decoder must report the original root's hash and depth. "
          "non-trivial = distinct (key, dictionary) resp. (tree, non-empty path set) resp. (pair of requests, tree).",
     trusted_base=[
         "hand model lean/TongoModel/Merkle.lean tied to boc/merkle_proof.go, immutableCell.pruneCells, "
